@@ -99,6 +99,7 @@ func loadEngine(repo string, patterns []string) (*Engine, error) {
 			e.specs.readFile(e, p, f)
 		}
 	})
+	e.specs.finalize()
 	return e, nil
 }
 
